@@ -37,6 +37,7 @@ META = {
 }
 
 TIMEOUT = 20
+ENV = {"WILD_VALIDATE_OUTPUT": "0", "RUST_BACKTRACE": "1"}
 
 
 def panic_site(err):
@@ -51,6 +52,20 @@ def panic_site(err):
     elif path.startswith("/repo/"):
         path = path[len("/repo/"):]
     return f"{path}:{line}"
+
+
+REPO_DIRS = ("libwild/", "linker-utils/", "wild/", "linker-diff/", "linker-layout/", "linker-trace/")
+
+
+def first_repo_frame(err):
+    """First backtrace frame whose source is in the repository (RUST_BACKTRACE=1, debug build)."""
+    for m in re.finditer(r"^\s+at (?:/repo/|\./)([^\s:]+):(\d+)(?::\d+)?\s*$", err, re.M):
+        f = m.group(1)
+        if f.startswith("src/"):
+            continue
+        if f.startswith(REPO_DIRS):
+            return f"{f}:{m.group(2)}"
+    return None
 
 
 def locus_str(c):
@@ -68,9 +83,9 @@ def run_modes(wild, argv, cwd):
     """Both process modes. Returns list of (mode, class, ShResult)."""
     out = []
     for mode, extra in (("no-fork", ["--no-fork"]), ("forked", [])):
-        r = sh([wild] + extra + argv, cwd=cwd, timeout=TIMEOUT, env={"WILD_VALIDATE_OUTPUT": "0"})
+        r = sh([wild] + extra + argv, cwd=cwd, timeout=TIMEOUT, env=ENV)
         if r.timed_out:
-            r = sh([wild] + extra + argv, cwd=cwd, timeout=60, env={"WILD_VALIDATE_OUTPUT": "0"})
+            r = sh([wild] + extra + argv, cwd=cwd, timeout=60, env=ENV)
         out.append((mode, classify(r), r))
         for f in ("out", "out.so"):
             try:
@@ -147,15 +162,30 @@ def run_case(i, c, d, seeds, forms, wild):
     return res
 
 
+def where_str(c):
+    """The class of input that failed, for outcomes that carry no source location."""
+    if c["locus"][0] == "token":
+        return f"{c['carrier']}:{c['mutation']}"           # not the token position
+    if c["carrier"] == "argv":
+        return f"argv:{c['mutation']}"                      # not the individual option
+    return c["carrier"] + ":" + ".".join(str(x) for x in c["locus"])
+
+
 def key_of(c, k, r):
     if k == "panic":
         site = panic_site(r.err)
-        return f"panic@{site}" if site else f"panic-unlocated@{locus_str(c)}"
+        if not site:
+            return f"panic-unlocated@{where_str(c)}"
+        if not site.startswith(REPO_DIRS):
+            # a panic inside a dependency / the standard library: name the wild frame that got there
+            fr = first_repo_frame(r.err)
+            return f"panic@{site}<-{fr}" if fr else f"panic@{site}"
+        return f"panic@{site}"
     if k.startswith("signal"):
-        return f"{k}@{locus_str(c)}"
+        return f"{k}@{where_str(c)}"
     if k == "hang":
-        return f"hang@{locus_str(c)}"
-    return f"silent@{locus_str(c)}"
+        return f"hang@{where_str(c)}"
+    return f"silent@{where_str(c)}"
 
 
 def run(ctx):
@@ -228,7 +258,7 @@ def run(ctx):
                     "cmd": ["wild"] + (["--no-fork"] if mode == "no-fork" else []) + argv, "cwd": "<this directory>",
                     "descriptor": {"carrier": c["carrier"], "locus": c["locus"], "mutation": c["mutation"], "label": c.get("label")},
                     "expected": "success or diagnostic (exit != 0 and a message), termination", "observed": k, "rc": rr.rc,
-                    "stderr": rr.err[-1500:]})
+                    "stderr": rr.err[:1500]})
             ctx.verdict.report(key, text, mk)
             if first and len(cov["samples"]) < 8:
                 cov["samples"].append({"case": locus_str(c), "mutation": c["mutation"], "mode": mode, "outcome": k,
